@@ -37,6 +37,9 @@ def check(ctx):
     ebm = vf.tlc(ctx, "EncBuf", "mc/EncBuf.cfg", name="encbuf-mut", defines={"MAXCAP": 40, "MAXPRE": 3, "MUT": '{"NoClosingReserve"}'}, timeout=3000, workers=4)
     if ebm["violated"] != "Within":
         raise vf.Inconclusive("the EncBuf variant without the closing reservation does not violate Within")
+    ebr = vf.tlc(ctx, "EncBuf", "mc/EncBuf.cfg", name="encbuf-mut2", defines={"MAXCAP": 40, "MAXPRE": 3, "MUT": '{"ResumeOverwrite"}'}, timeout=3000, workers=4)
+    if ebr["violated"] != "Result":
+        raise vf.Inconclusive("the EncBuf variant that overwrites the resume offset does not violate Result")
     sfile = os.path.join(ctx.work, "pool.json")
     vf.vh(ctx, ["pool", "-dump", g["dump"], "-out", sfile, "-seed", ctx.seed, "-guard", ctx.pick(300, 1500), "-encbufmax", ctx.pick(400, 4000)], timeout=3000)
     s = json.load(open(sfile))
